@@ -144,27 +144,23 @@ def rule_castle_pre(ctx):
                     both = names == [B_ + "no_checks_castling", B_ + "no_pieces_between_castling"] and same_kind
         ctx.check(rights and both, "castling_ability:three-conjuncts", "Available requires castle_status(kind) == Available && no_pieces_between(kind).and(no_checks(kind)).is_ok()", b.where(avail[0]),
                   bad_what="the Available result is not guarded by all of: the right, the empty path and the unattacked path for the same kind (rights: %s, both path tests: %s)" % (rights, both))
-    errs = [bi for bi, i, s in b.stmts() if mir.is_local(s["lhs"]) and s["lhs"]["l"] == 0 and s["rv"].get("variant") == "Err"]
+    # which (kind, side to move) pairs are refused before anything else is looked at: per-case constant propagation
+    from . import cases
     table = set()
-    if errs:
-        # which (kind, turn) pairs lead to Err: enumerate paths
-        for path in mir.enumerate_paths(b, stop_blocks=set(errs)):
-            if path[-1] not in errs:
+    undecided = []
+    for k in c04.KIND_FIELD:
+        for tn in ("White", "Black"):
+            c = cases.run(ix, b, {"kind": cases.enum_val(ix, "board::ply::castling::CastlingKind", k),
+                                  "*self.current_turn": cases.enum_val(ix, "board::piece::Color", tn)})
+            if c.overflow or not c.paths:
+                undecided.append((k, tn))
                 continue
-            cons = {}
-            for i, bi in enumerate(path[:-1]):
-                t = b.blocks[bi].term
-                if t["k"] == "switch":
-                    e = expr_str(sym.operand(t["discr"]))
-                    ty = C.discr_type_of_switch(b, bi)
-                    names = C.variant_names(ix, ty) if ty else None
-                    vals = [a[0] for a in t["arms"] if a[1] == path[i + 1]]
-                    cons[e] = [names.get(v, v) if names else v for v in vals]
-            k = [v for e, v in cons.items() if "kind" in e]
-            tn = [v for e, v in cons.items() if "current_turn" in e]
-            for kk in (k[0] if k else []):
-                for tt in (tn[0] if tn else []):
-                    table.add((kk, tt))
+            refused = [p for p in c.paths if p.end == "return" and p.ret[0] == "agg" and p.ret[2] == "Err" and not p.calls("castle_status", "no_pieces_between_castling", "no_checks_castling")]
+            if len(refused) == len(c.paths):
+                table.add((k, tn))
+            elif refused:
+                undecided.append((k, tn))
+    ctx.check(not undecided, "castling_ability:wrong-turn-decided", "the refusal depends on (kind, side to move) only", b.where(0), bad_what="for %s the wrong-turn refusal depends on something else (cannot decide)" % undecided)
     want = {("WhiteKingside", "Black"), ("WhiteQueenside", "Black"), ("BlackKingside", "White"), ("BlackQueenside", "White")}
     ctx.check(table == want, "castling_ability:wrong-turn-table", "castling for a side is refused exactly when it is the other side's turn", b.where(0), bad_what="wrong-turn table is %s" % sorted(table))
 
